@@ -146,7 +146,18 @@ fn one_case<const N: usize>(ctx: &mut Ctx, idx: usize) {
         Some(k) => k,
         None => return,
     };
-    let ms = edge_vec(&mut ctx.prng, N);
+    let mut ms = edge_vec(&mut ctx.prng, N);
+    // one case in four: a message chosen *in relation to the key* so that x + <y, m> = 0 — the signature is then
+    // (h, 1) and X~·prod Y~_i^{m_i} = 1; the PS relation holds and verification must say so
+    if idx % 4 == 1 {
+        let k = ctx.prng.gen_range(0..N);
+        if kpd.ys[k] != Scalar::zero() {
+            let mut acc = kpd.x;
+            for i in 0..N { if i != k { acc += kpd.ys[i] * ms[i]; } }
+            ms[k] = -acc * kpd.ys[k].invert().unwrap();
+            ctx.count("message:annihilates-the-key");
+        }
+    }
     // sign
     let mut rng = ScriptedRng::new(ctx.prng.gen(), book.clone());
     let mut sig = wire::msg::<N>(&ms).sign(&mut rng, &kp);
